@@ -199,8 +199,8 @@ func genSub(r *rand.Rand, tier string) *subIn {
 		return &subIn{Enc: uint8(chunkenc.EncXOR), Data: xorChunk(r, 40+r.Intn(120))}
 	case k < 16: // arbitrary payload under a valid encoding, lengths around the uvarint boundaries
 		n := common.Pick(r, 1, 1, 2, 3, 10, 126, 127, 128, 129, 200, 255, 256, 300)
-		if tier == "thorough" && r.Intn(6) == 0 {
-			n = common.Pick(r, 16383, 16384, 16385, 20000)
+		if tier == "thorough" && r.Intn(25) == 0 {
+			n = common.Pick(r, 16383, 16384, 16385)
 		}
 		return &subIn{Enc: uint8(common.Pick(r, chunkenc.EncXOR, chunkenc.EncHistogram, chunkenc.EncFloatHistogram)), Data: randBytes(r, n)}
 	case k < 18: // payload starting with bytes that look like lengths / zero
@@ -216,9 +216,18 @@ func genSub(r *rand.Rand, tier string) *subIn {
 
 func genEnc(r *rand.Rand, tier string, pattern int) input {
 	in := input{Kind: "enc"}
+	big := false
 	for i := 0; i < 5; i++ {
 		if pattern&(1<<i) != 0 {
 			s := genSub(r, tier)
+			// at most one large payload per case: Coq's parser overflows its stack on list
+			// literals of more than ~40000 elements (the encoded chunk is one such list)
+			if len(s.Data) > 4000 {
+				if big {
+					s.Data = s.Data[:300]
+				}
+				big = true
+			}
 			in.Subs[i] = s
 		}
 	}
@@ -279,5 +288,5 @@ func gen(r *rand.Rand, tier string, n int) []any {
 }
 
 func main() {
-	common.Main(common.Prop{ID: "C39", Facts: facts, Gen: gen, Run: run, QuickN: 480, ThoroughN: 6400})
+	common.Main(common.Prop{ID: "C39", Facts: facts, Gen: gen, Run: run, QuickN: 480, ThoroughN: 2400})
 }
